@@ -1,5 +1,5 @@
 """C11 — index file codec (dulwich/index.py).  DESIGN.md section 7 C11 / A.6."""
-from pyvc.contract import contract, lemma
+from pyvc.contract import class_spec, contract, lemma
 
 I = "dulwich/index.py"
 
@@ -191,4 +191,20 @@ contract(
             "all(f.content[k] != 0 for k in range(msb_end(f.content, old(f.pos)), f.pos))",
         ], decreases="len(f.content) - f.pos", types={"byte_data": "bytes", "byte": "int", "suffix": "bytes"}, keep=["remove_len", "first"]),
     },
+)
+
+
+# ---- write_cache_entry: the flags word keeps every bit of entry.flags above the 12-bit name length field (stage bits, the
+# extended marker, assume-valid 0x8000) and stores min(len(name), 0xFFF) in the field
+class_spec(file="<abstract>", cls="SerEntryAbs11", fields={"ctime": "opaque", "mtime": "opaque", "dev": "nat", "ino": "nat", "mode": "nat", "uid": "nat", "gid": "nat",
+                                                            "size": "nat", "sha": "opaque", "flags": "nat", "extended_flags": "nat", "name": "bytes"})
+contract(prop=["C11"], file="<abstract>", func="write_cache_time@abs", trusted=True, params={"f": "opaque", "t": "opaque"}, returns="None", raises={"Exception": None})
+contract(prop=["C11"], file="<abstract>", func="_compress_path@abs11", trusted=True, params={"path": "bytes", "previous_path": "bytes"}, returns="bytes", raises={"Exception": None})
+contract(
+    prop=["C11"], file=I, func="write_cache_entry",
+    params={"f": "opaque", "entry": "obj:SerEntryAbs11", "version": "int", "previous_path": "bytes"}, returns="None", raises={"Exception": None},
+    requires=["entry.flags < 65536"],
+    options={"callee_contracts": {"write_cache_time": ("<abstract>", "write_cache_time@abs"), "_compress_path": ("<abstract>", "_compress_path@abs11")},
+             "asserts": [("flags-word-keeps-the-upper-bits", ">flags = min(len(entry.name), FLAG_NAMEMASK) |",
+                          ["flags // 4096 == entry.flags // 4096", "flags % 4096 == min(len(entry.name), 4095)"])]},
 )
